@@ -149,26 +149,80 @@ KSRC = [
     ("()", """
     action.set_loc(spec.get_special_grid(grid_id="park"))
 """, [()]),
+    # other tone lists: non-contiguous tone numbers, a single tone, lists built by ilist.range, and no tone at all on one or both axes
+    ("(x: float, y: float)", """
+    g = grid.from_positions([x, x + 2.0], [y])
+    action.set_loc(g)
+    action.turn_on([0, 1], action.ALL)
+    action.move(grid.shift(g, 1.0, 0.5))
+    action.move(grid.shift(g, 1.0, 2.5))
+    action.turn_off(action.ALL, [0])
+""", [(1.0, 0.5)], ("[2, 5]", "[1]")),
+    ("(x: float, y: float)", """
+    g = grid.from_positions([x], [y])
+    action.set_loc(g)
+    action.turn_on([0], [0])
+    action.move(grid.shift(g, 1.0, 0.5))
+    action.move(grid.shift(g, 3.0, 0.5))
+    action.turn_off(action.ALL, action.ALL)
+""", [(1.0, 0.5)], ("[0]", "[0]")),
+    ("(x: float, y: float)", """
+    g = grid.from_positions([x, x + 2.0], [y])
+    action.set_loc(g)
+    action.turn_on(action.ALL, action.ALL)
+    action.move(grid.shift(g, 1.0, 0.5))
+    action.move(grid.shift(g, 0.0, 1.5))
+    action.turn_off([1], [0])
+""", [(0.0, 0.0)], ("ilist.range(2)", "ilist.range(1)")),
+    ("(x: float, y: float)", """
+    g = grid.from_positions([], [y])
+    action.set_loc(g)
+    action.turn_on(action.ALL, [0])
+    action.move(grid.shift(g, 1.0, 0.5))
+    action.move(grid.shift(g, 1.0, 2.5))
+    action.turn_off(action.ALL, [0])
+""", [(1.0, 0.5)], ("[]", "[0]")),
+    ("(x: float, y: float)", """
+    g = grid.from_positions([x, x + 1.0], [])
+    action.set_loc(g)
+    action.turn_on([0, 1], action.ALL)
+    action.move(grid.shift(g, 1.0, 0.5))
+    action.move(grid.shift(g, 2.0, 0.5))
+    action.turn_off([0], action.ALL)
+""", [(1.0, 0.5)], ("[0, 1]", "ilist.range(0)")),
+    ("(x: float, y: float)", """
+    g = grid.from_positions([], [])
+    action.set_loc(g)
+    action.turn_on(action.ALL, action.ALL)
+    action.move(grid.shift(g, 1.0, 0.5))
+    action.move(grid.shift(g, 1.0, 2.5))
+    action.turn_off(action.ALL, action.ALL)
+""", [(1.0, 0.5)], ("[]", "[]")),
 ]
 
 
 def schedule_level(ctx):
     S = tweezer_prog.harness_spec()
     n = 0
-    for sig, body, argsets in KSRC:
+    for entry in KSRC:
+        sig, body, argsets = entry[:3]
+        XT, YT = entry[3] if len(entry) > 3 else ("[0, 1]", "[0]")
+        want_tones = (list(eval(XT.replace("ilist.", ""))), list(eval(YT.replace("ilist.", ""))))
         ns = kernels.define(f"@tweezer\ndef k{sig}:{body}")
         names = [p.split(":")[0].strip() for p in sig.strip("()").split(",") if p.strip()]
         for args in argsets:
             pos = ", ".join(repr(a) for a in args)
             kw = ", ".join(f"{nm}={a!r}" for nm, a in reversed(list(zip(names, args))))
-            msrc = ("@move{dec}\ndef main():\n    f = schedule.device_fn(k, [0, 1], [0])\n    r = schedule.reverse(f)\n"
+            msrc = ("@move{dec}\ndef main():\n    f = schedule.device_fn(k, XTONES, YTONES)\n    r = schedule.reverse(f)\n"
                     "    rr = schedule.reverse(r)\n    rrr = schedule.reverse(rr)\n"
-                    f"    f({pos})\n    r({kw})\n    rr({pos})\n    rrr({kw})\n    schedule.reverse(schedule.device_fn(k, [0, 1], [0]))({pos})\n")
+                    f"    f({pos})\n    r({kw})\n    rr({pos})\n    rrr({kw})\n    schedule.reverse(schedule.device_fn(k, XTONES, YTONES))({pos})\n")
             # the same calls with the operands passed as kernel parameters (nothing can be folded: evaluated at run time)
             kwv = ", ".join(f"{nm}={nm}" for nm in reversed(names))
-            psrc = ("@move{dec}\ndef main" + sig + ":\n    f = schedule.device_fn(k, [0, 1], [0])\n    r = schedule.reverse(f)\n"
+            psrc = ("@move{dec}\ndef main" + sig + ":\n    f = schedule.device_fn(k, XTONES, YTONES)\n    r = schedule.reverse(f)\n"
                     "    rr = schedule.reverse(r)\n    rrr = schedule.reverse(rr)\n"
-                    f"    f({', '.join(names)})\n    r({kwv})\n    rr({', '.join(names)})\n    rrr({kwv})\n    schedule.reverse(schedule.device_fn(k, [0, 1], [0]))({', '.join(names)})\n")
+                    f"    f({', '.join(names)})\n    r({kwv})\n    rr({', '.join(names)})\n    rrr({kwv})\n    schedule.reverse(schedule.device_fn(k, XTONES, YTONES))({', '.join(names)})\n")
+            msrc = msrc.replace("XTONES", XT).replace("YTONES", YT)
+            psrc = psrc.replace("XTONES", XT).replace("YTONES", YT)
             routes = [("fold(compile-time spec)", "(arch_spec=S)", False, False), ("stamped spec, plain interpreter", "(arch_spec=S, fold=False)", True, False),
                       ("run-time spec interpreter", "", False, False), ("run-time spec, fold=False", "(fold=False)", False, False)]
             if names:
@@ -202,13 +256,14 @@ def schedule_level(ctx):
                     probs.append("reverse(reverse(f)) does not behave as f")
                 if ps[3] != ps[1] or ps[4] != ps[1]:
                     probs.append("reverse^3(f) / inline reverse differ from reverse(f)")
-                if any(t != ([0, 1], [0]) for t in tones):
+                if any(t != want_tones for t in tones):
                     probs.append("tone lists changed")
                 for pr in probs:
                     ctx.fail({"kind": "schedule-level", "route": rname, "problem": pr}, rep, f"{rname}: {pr}")
                 gt = tc.GridTable()
                 texts[rname] = [tc.path_text(p, gt) for p in ps]
-                ctx.nt(("sched", sig, args, rname))
+                ctx.nt(("sched", sig, args, rname, XT, YT))
+                ctx.hist("schedule-level tone lists", f"x={XT} y={YT}")
             if len(set(map(tuple, texts.values()))) > 1:
                 ctx.fail({"kind": "schedule-level", "problem": "routes disagree"}, {"kernel": body, "args": repr(args)},
                          "the Gen routes yield different paths for the same calls")
